@@ -232,3 +232,74 @@ func Harness_C12_request_reply() {
 	verif_Assert("C12.rr.closed", d.closed && local.Closed)
 	verif_Cover("C12.rr.done")
 }
+
+// c12SlowTunnel is a tunnel whose writes take 50 ms (back-pressure) and which refuses writes
+// after its write side was closed; its read side stays open until the tunnel is closed.
+type c12SlowTunnel struct {
+	mu          sync.Mutex
+	got         []byte
+	closedWrite bool
+	rejected    int
+	closed      chan struct{}
+	once        sync.Once
+}
+
+func (t *c12SlowTunnel) Write(p []byte) (int, error) {
+	time.Sleep(50 * time.Millisecond)
+	t.mu.Lock()
+	defer t.mu.Unlock()
+	if t.closedWrite {
+		t.rejected++
+		return 0, io.ErrClosedPipe
+	}
+	t.got = append(t.got, p...)
+	return len(p), nil
+}
+// the far end finishes its own direction once it has seen the half-close
+func (t *c12SlowTunnel) Read(p []byte) (int, error) { <-t.closed; return 0, io.EOF }
+func (t *c12SlowTunnel) CloseWrite() error {
+	t.mu.Lock()
+	t.closedWrite = true
+	t.mu.Unlock()
+	t.once.Do(func() { close(t.closed) })
+	return nil
+}
+func (t *c12SlowTunnel) Close() error { return t.CloseWrite() }
+
+// c12QuietUDP delivers its datagrams at once, stays quiet for 30 ms, then ends.
+type c12QuietUDP struct {
+	verifDgramConn
+	slept bool
+}
+
+func (c *c12QuietUDP) Read(p []byte) (int, error) {
+	if len(c.In) == 0 && !c.slept {
+		c.slept = true
+		time.Sleep(30 * time.Millisecond)
+	}
+	return c.verifDgramConn.Read(p)
+}
+
+// The local UDP side ends while the periodic flush (every 20 ms) is still inside a slow tunnel
+// write: the datagrams of that flush are delivered before the tunnel's write side is closed -
+// nothing is written after the half-close and nothing is lost.
+func Harness_C12_udp_slow_tunnel() {
+	verif_ClockSet(int64(1) << 60)
+	k := verif_IntRange(1, 2)
+	udp := &c12QuietUDP{}
+	var want []byte
+	for i := 0; i < k; i++ {
+		d := []byte{verif_Byte(), byte(i)}
+		udp.In = append(udp.In, d)
+		want = append(want, 0, 2)
+		want = append(want, d...)
+	}
+	tunnel := &c12SlowTunnel{closed: make(chan struct{})}
+	UDP(udp, tunnel, nil)
+	tunnel.mu.Lock()
+	got, rejected := tunnel.got, tunnel.rejected
+	tunnel.mu.Unlock()
+	verif_Assert("C12.slow.nothing_written_after_half_close", rejected == 0)
+	verif_Assert("C12.slow.all_delivered", verif_BytesEq(got, want))
+	verif_Cover("C12.slow.done")
+}
